@@ -440,18 +440,35 @@ func (s *StateDB) RevertToSnapshot(revid int) {
 
 // Commit writes the dirty states to keeper
 // the StateDB object should be discarded after committed.
+//
+// The dirty state is written all or nothing: Commit also runs in the middle of a transaction (every
+// stateful precompile call starts by flushing the StateDB), where an error only fails the current call
+// frame. A half-written flush - e.g. coins minted for an account that then cannot be credited - must not
+// outlive that frame.
 func (s *StateDB) Commit() error {
+	ctx, writeCache := s.ctx, func() {}
+	if s.ctx.MultiStore() != nil { // a context without a store is only used with mock keepers
+		ctx, writeCache = s.ctx.CacheContext()
+	}
+
+	type committedSlot struct {
+		obj   *stateObject
+		key   common.Hash
+		value common.Hash
+	}
+	var committed []committedSlot
+
 	for _, addr := range s.journal.sortedDirties() {
 		obj := s.stateObjects[addr]
 		if obj.suicided {
-			if err := s.keeper.DeleteAccount(s.ctx, obj.Address()); err != nil {
+			if err := s.keeper.DeleteAccount(ctx, obj.Address()); err != nil {
 				return errorsmod.Wrap(err, "failed to delete account")
 			}
 		} else {
 			if obj.code != nil && obj.dirtyCode {
-				s.keeper.SetCode(s.ctx, obj.CodeHash(), obj.code)
+				s.keeper.SetCode(ctx, obj.CodeHash(), obj.code)
 			}
-			if err := s.keeper.SetAccount(s.ctx, obj.Address(), obj.account); err != nil {
+			if err := s.keeper.SetAccount(ctx, obj.Address(), obj.account); err != nil {
 				return errorsmod.Wrap(err, "failed to set account")
 			}
 			for _, key := range obj.dirtyStorage.SortedKeys() {
@@ -463,15 +480,20 @@ func (s *StateDB) Commit() error {
 					(!ok && dirtyValue == originValue) {
 					continue
 				}
-				s.keeper.SetState(s.ctx, obj.Address(), key, dirtyValue.Bytes())
-
-				// Update the pendingStorage cache to the new value.
-				// This is specially needed for precompiles calls where
-				// multiple Commits calls are done within the same transaction
-				// for the appropriate changes to be committed.
-				obj.transientStorage[key] = dirtyValue
+				s.keeper.SetState(ctx, obj.Address(), key, dirtyValue.Bytes())
+				committed = append(committed, committedSlot{obj, key, dirtyValue})
 			}
 		}
+	}
+
+	writeCache()
+
+	// Update the pendingStorage cache to the new value.
+	// This is specially needed for precompiles calls where
+	// multiple Commits calls are done within the same transaction
+	// for the appropriate changes to be committed.
+	for _, c := range committed {
+		c.obj.transientStorage[c.key] = c.value
 	}
 	return nil
 }
